@@ -6,6 +6,9 @@ use amq_protocol::protocol::basic::GetOk as AmqpGetOk;
 use amq_protocol::protocol::basic::Return as AmqpReturn;
 use std::cmp::Ordering;
 
+// Upper bound for the buffer capacity reserved when a content header arrives.
+const MAX_BODY_PREALLOCATION: u64 = 1 << 20;
+
 pub(super) struct ContentCollector {
     channel_id: u16,
     kind: Option<Kind>,
@@ -221,7 +224,11 @@ impl<T: ContentType> State<T> {
                         header.properties,
                     )))
                 } else {
-                    let buf = Vec::with_capacity(header.body_size as usize);
+                    // body_size is whatever the server announced; don't let it size an
+                    // allocation up front beyond a sane amount (the buffer grows as the body
+                    // frames actually arrive).
+                    let capacity = u64::min(header.body_size, MAX_BODY_PREALLOCATION) as usize;
+                    let buf = Vec::with_capacity(capacity);
                     Ok(Content::NeedMore(State::Body(start, header, buf)))
                 }
             }
